@@ -38,19 +38,21 @@ type Driver struct{}
 
 func (Driver) ID() string { return "C18" }
 
-var fontFiles = map[int]string{1: "/repo/resources/DejaVuSerif.ttf", 2: "/repo/resources/EBGaramond12-Regular.otf"}
+var fontFiles = map[int]string{1: "/repo/resources/DejaVuSerif.ttf", 2: "/repo/resources/EBGaramond12-Regular.otf", 3: "/repo/resources/Dynalight-Regular.otf"}
 
 // ---- scenarios ---------------------------------------------------------------------------------------
 
 type TextSc struct {
 	S    []int  `json:"s"`
 	Mode string `json:"mode"`
+	Raw  bool   `json:"raw"`
 }
 type DocSc struct {
 	Font     int      `json:"font"`
 	Subset   bool     `json:"subset"`
 	Compress bool     `json:"compress"`
 	Reuse    int      `json:"reuse"`
+	Variant  int      `json:"variant"` // 0 FontNormal, 1 FontSubscript, 2 FontSuperscript
 	Texts    []TextSc `json:"texts"`
 }
 type HistCall struct {
@@ -167,10 +169,76 @@ func (r *refFont) sig(gid int) sigRec {
 	r.sigs[gid] = s
 	return s
 }
+func (r *refFont) kind() string {
+	if r.sfnt.IsTrueType {
+		return "ttf"
+	}
+	return "cff"
+}
 func (r *refFont) rev(gid int) int {
 	r.mu.Lock()
 	defer r.mu.Unlock()
 	return int(r.sfnt.Cmap.ToUnicode(uint16(gid)))
+}
+
+// advanceClasses measures, with the real shaper and the source font's hmtx: eq = up to 8 characters (distinct glyphs) of the
+// largest class with one common advance that differs from the .notdef advance; dw = up to 6 characters whose glyph has the
+// .notdef advance (the DW of the embedded CIDFont). They are the alphabet of the "wruns" scenario family of the spec.
+func advanceClasses(f int) (eq, dw []int, err error) {
+	rf, err := ref(f)
+	if err != nil {
+		return nil, nil, err
+	}
+	fnt, err := canvas.LoadFont(rf.data, 0, canvas.FontRegular)
+	if err != nil {
+		return nil, nil, err
+	}
+	face := fnt.Face(12, canvas.Black)
+	notdef := int(rf.sfnt.GlyphAdvance(0))
+	upm := int(rf.sfnt.Head.UnitsPerEm)
+	width := func(a int) int { return (2000*a + upm) / (2 * upm) }
+	groups := map[int][]int{}
+	seen := map[uint16]bool{}
+	for r := rune(0x20); r < 0x180; r++ {
+		if (r >= 0x7f && r < 0xa1) || r == 0xad {
+			continue
+		}
+		gs := face.Glyphs(string(r))
+		if len(gs) != 1 || gs[0].ID == 0 || seen[gs[0].ID] {
+			continue
+		}
+		seen[gs[0].ID] = true
+		a := int(rf.sfnt.GlyphAdvance(gs[0].ID))
+		groups[a] = append(groups[a], int(r))
+	}
+	dw = groups[notdef]
+	if len(dw) > 6 {
+		dw = dw[:6]
+	}
+	best := -1
+	for a, rs := range groups {
+		if width(a) == width(notdef) {
+			continue
+		}
+		if best < 0 || len(rs) > len(groups[best]) || (len(rs) == len(groups[best]) && a < best) {
+			best = a
+		}
+	}
+	if best >= 0 {
+		eq = groups[best]
+		if len(eq) > 8 {
+			eq = eq[:8]
+		}
+	}
+	return eq, dw, nil
+}
+
+func tlaSet(xs []int) string {
+	parts := make([]string, len(xs))
+	for i, x := range xs {
+		parts[i] = fmt.Sprint(x)
+	}
+	return "{" + strings.Join(parts, ", ") + "}"
 }
 
 // ---- records of FontEmbed.tla ------------------------------------------------------------------------------
@@ -191,10 +259,15 @@ type fontRec struct {
 	badText string
 }
 type spanRec struct {
-	W   int `json:"w"`
-	Sum int `json:"sum"`
+	W    int `json:"w"`    // span width in font units of the face's scale Size/unitsPerEm
+	Sum  int `json:"sum"`  // sum of the laid-out advances
+	Um   int `json:"um"`   // span width in micrometres
+	Size int `json:"size"` // face size in micrometres
+	Tf   int `json:"tf"`   // operand of Tf for this span's text object, micrometres
+	N    int `json:"n"`    // glyphs
 }
 type docRec struct {
+	Kind       string    `json:"kind"` // "ttf" | "cff"
 	Font       int       `json:"font"`
 	Subset     bool      `json:"subset"`
 	Reuse      int       `json:"reuse"`
@@ -205,6 +278,8 @@ type docRec struct {
 	Unreadable int       `json:"unreadable"`
 }
 type glyphEv struct {
+	tf      int
+	Span    int    `json:"span"`
 	F       int    `json:"f"`
 	Code    int    `json:"code"`
 	Adj     int    `json:"adj"`
@@ -232,6 +307,7 @@ type pathGlyph struct {
 	Oy0  int  `json:"oy0"`
 }
 type pathRec struct {
+	Kind    string      `json:"kind"`
 	Font    int         `json:"font"`
 	Reuse   int         `json:"reuse"`
 	Err     bool        `json:"err"`
@@ -255,6 +331,7 @@ type event struct {
 // ---- laying out and rendering with the real code ----------------------------------------------------------------
 
 type laidGlyph struct {
+	span    int // 1-based index into rendered.spans
 	g       canvasText.Glyph
 	cluster []int
 	vert    bool
@@ -288,6 +365,7 @@ func unitsOf(mm, mmPerEm float64) int {
 }
 
 type rendered struct {
+	kind  string
 	data  []byte
 	laid  []laidGlyph
 	spans []spanRec
@@ -326,12 +404,15 @@ func render(s *Scenario) (res *rendered, ms []core.Mismatch) {
 	if err != nil {
 		return nil, []core.Mismatch{{Signature: "machinery", Detail: err.Error()}}
 	}
-	fnt, err := canvas.LoadFont(rf.data, 0, canvas.FontRegular)
-	if err != nil {
+	fam := canvas.NewFontFamily("c18font")
+	if err := fam.LoadFont(rf.data, 0, canvas.FontRegular); err != nil {
 		return nil, []core.Mismatch{{Signature: "machinery", Detail: err.Error()}}
 	}
-	face := fnt.Face(12, canvas.Black)
-	res = &rendered{upm: int(rf.sfnt.Head.UnitsPerEm)}
+	face := fam.Face(12, canvas.Black, canvas.FontRegular, []canvas.FontVariant{canvas.FontNormal, canvas.FontSubscript, canvas.FontSuperscript}[d.Variant])
+	// sub/superscript faces ask for a heavier weight; the family has the regular font only, so the face would get faux
+	// bold (outlines offset in ToPath, stroked text in the PDF). Faux styles are not C18's subject: switched off.
+	face.FauxBold, face.FauxItalic = 0, 0
+	res = &rendered{upm: int(rf.sfnt.Head.UnitsPerEm), kind: rf.kind()}
 	for k := 0; k < d.Reuse; k++ {
 		where = "earlier document"
 		var sink bytes.Buffer
@@ -349,9 +430,9 @@ func render(s *Scenario) (res *rendered, ms []core.Mismatch) {
 		str := cpString(s.Cps[i])
 		for _, off := range [][2]int32{{0, 0}, {120, -80}} {
 			fc := *face
-			fc.XOffset, fc.YOffset = off[0], off[1]
+			fc.XOffset, fc.YOffset = face.XOffset+off[0], face.YOffset+off[1]
 			pr := observePath(&fc, str, rf)
-			pr.Font, pr.Reuse = d.Font, d.Reuse
+			pr.Font, pr.Reuse, pr.Kind = d.Font, d.Reuse, res.kind
 			res.paths = append(res.paths, pr)
 		}
 	}
@@ -400,7 +481,7 @@ func render(s *Scenario) (res *rendered, ms []core.Mismatch) {
 			}
 			sum := 0
 			for _, g := range span.Glyphs {
-				lg := laidGlyph{g: g, vert: g.Vertical, cluster: clusterRunes(base, offs, int(g.Cluster))}
+				lg := laidGlyph{span: len(res.spans) + 1, g: g, vert: g.Vertical, cluster: clusterRunes(base, offs, int(g.Cluster))}
 				res.laid = append(res.laid, lg)
 				if g.Vertical {
 					sum -= int(g.YAdvance)
@@ -410,7 +491,9 @@ func render(s *Scenario) (res *rendered, ms []core.Mismatch) {
 					hasH = true
 				}
 			}
-			res.spans = append(res.spans, spanRec{W: unitsOf(span.Width, span.Face.MmPerEm), Sum: sum})
+			// the face's scale is Size / unitsPerEm (the PDF's Tf operand is Size); MmPerEm is not used as a reference
+			scale := span.Face.Size / float64(res.upm)
+			res.spans = append(res.spans, spanRec{W: unitsOf(span.Width, scale), Sum: sum, Um: int(math.Round(span.Width * 1000)), Size: int(math.Round(span.Face.Size * 1000)), N: len(span.Glyphs)})
 		}
 	}
 	res.hv = hasV && hasH
@@ -436,8 +519,9 @@ func observePath(face *canvas.FontFace, str string, rf *refFont) *pathRec {
 		pr.Err, pr.Split = true, false
 		pr.errText = err.Error()
 	}
-	pr.Tw = unitsOf(face.TextWidth(str), face.MmPerEm)
-	pr.Ret = unitsOf(adv, face.MmPerEm)
+	scale := face.Size / float64(rf.sfnt.Head.UnitsPerEm) // the face's scale; not face.MmPerEm, which is what is being checked
+	pr.Tw = unitsOf(face.TextWidth(str), scale)
+	pr.Ret = unitsOf(adv, scale)
 	segs, derr := oracle.Decode(p.Data())
 	if derr != nil {
 		pr.Split = false
@@ -482,7 +566,7 @@ func observePath(face *canvas.FontFace, str string, rf *refFont) *pathRec {
 			for j := 0; j < src.nc; j++ {
 				x0, y0 = math.Min(x0, boxes[k+j].x0), math.Min(y0, boxes[k+j].y0)
 			}
-			pg.Ox0, pg.Oy0 = int(math.Round(x0/face.MmPerEm)), int(math.Round(y0/face.MmPerEm))
+			pg.Ox0, pg.Oy0 = int(math.Round(x0/scale)), int(math.Round(y0/scale))
 		}
 		k += src.nc
 		pr.Gl = append(pr.Gl, pg)
@@ -651,7 +735,7 @@ func decode(id int, s *Scenario, r *rendered) (trace []byte, nEvents int, ms []c
 	d := s.Doc
 	rf, _ := ref(d.Font)
 	f := oracle.ParsePDF(r.data)
-	dr := &docRec{Font: d.Font, Subset: d.Subset, Reuse: d.Reuse, Upm: r.upm, Hv: r.hv, Fonts: []fontRec{}, Spans: r.spans}
+	dr := &docRec{Kind: r.kind, Font: d.Font, Subset: d.Subset, Reuse: d.Reuse, Upm: r.upm, Hv: r.hv, Fonts: []fontRec{}, Spans: r.spans}
 	if dr.Spans == nil {
 		dr.Spans = []spanRec{}
 	}
@@ -676,11 +760,16 @@ func decode(id int, s *Scenario, r *rendered) (trace []byte, nEvents int, ms []c
 			dr.Unreadable++
 			continue
 		}
-		cur := 0
+		cur, tf := 0, 0
 		for _, op := range oracle.ParseContent(co.Decoded) {
 			switch op.Op {
 			case "Tf":
 				cur = 0
+				if len(op.Args) == 2 {
+					if n, ok := op.Args[1].(oracle.PDFNum); ok {
+						tf = int(math.Round(n.F * 1000))
+					}
+				}
 				if len(op.Args) == 2 && fonts != nil {
 					if fo, isRef := fonts.Get(nameOf(op.Args[0])).(oracle.PDFRef); isRef {
 						if _, obj, ok := f.Resolve(fo); ok && obj != nil && obj.Dict != nil && nameOf(obj.Dict.Get("Subtype")) == "Type0" {
@@ -706,7 +795,7 @@ func decode(id int, s *Scenario, r *rendered) (trace []byte, nEvents int, ms []c
 					dr.Unreadable++
 				}
 				for _, x := range sh {
-					shown = append(shown, glyphEv{F: cur, Code: x.Code, Adj: x.Adj})
+					shown = append(shown, glyphEv{tf: tf, F: cur, Code: x.Code, Adj: x.Adj})
 				}
 			}
 		}
@@ -715,6 +804,11 @@ func decode(id int, s *Scenario, r *rendered) (trace []byte, nEvents int, ms []c
 		ms = append(ms, core.Mismatch{Signature: "shown-code-count-differs", Detail: fmt.Sprintf("%d codes shown in the content streams, %d glyphs laid out", len(shown), len(r.laid))})
 		return nil, 0, ms
 	}
+	for i := range shown {
+		if k := r.laid[i].span; k >= 1 && k <= len(dr.Spans) {
+			dr.Spans[k-1].Tf = shown[i].tf
+		}
+	}
 	var buf bytes.Buffer
 	enc := json.NewEncoder(&buf)
 	enc.Encode(event{Op: "DOC", ID: id, D: dr})
@@ -722,6 +816,7 @@ func decode(id int, s *Scenario, r *rendered) (trace []byte, nEvents int, ms []c
 	for i := range shown {
 		e := shown[i]
 		lg := r.laid[i]
+		e.Span = lg.span
 		fr := dr.Fonts[e.F-1]
 		e.G, e.Xadv, e.Yadv, e.Vert, e.Cluster = int(lg.g.ID), int(lg.g.XAdvance), int(lg.g.YAdvance), lg.vert, lg.cluster
 		e.Rev = rf.rev(e.G)
@@ -750,8 +845,10 @@ func decode(id int, s *Scenario, r *rendered) (trace []byte, nEvents int, ms []c
 
 // ---- validation by Trace_FontEmbed ------------------------------------------------------------------------------------
 
+const noClasses = " Eq1 = {}\n Eq2 = {}\n Eq3 = {}\n Dw1 = {}\n Dw2 = {}\n Dw3 = {}\n"
+
 func traceCfg() string {
-	return "SPECIFICATION TSpec\nCONSTANTS Gen = \"trace\"\n EmitAt = 0\n NRand = 0\n StrLen = 0\nPOSTCONDITION TraceAccepted\nCHECK_DEADLOCK FALSE\n"
+	return "SPECIFICATION TSpec\nCONSTANTS Gen = \"trace\"\n EmitAt = 0\n NRand = 0\n StrLen = 0\n" + noClasses + "POSTCONDITION TraceAccepted\nCHECK_DEADLOCK FALSE\n"
 }
 
 type verdictLine struct {
@@ -799,7 +896,7 @@ func describe(s *Scenario) string {
 	for i, t := range d.Texts {
 		parts = append(parts, fmt.Sprintf("%s:%q", t.Mode, cpString(s.Cps[i])))
 	}
-	return fmt.Sprintf("font=%s subset=%v compress=%v reusedFontObject=%d texts=[%s]", map[int]string{1: "DejaVuSerif.ttf", 2: "EBGaramond12-Regular.otf"}[d.Font], d.Subset, d.Compress, d.Reuse, strings.Join(parts, " "))
+	return fmt.Sprintf("font=%s subset=%v compress=%v reusedFontObject=%d texts=[%s]", map[int]string{1: "DejaVuSerif.ttf", 2: "EBGaramond12-Regular.otf", 3: "Dynalight-Regular.otf"}[d.Font]+[]string{"", " subscript", " superscript"}[d.Variant], d.Subset, d.Compress, d.Reuse, strings.Join(parts, " "))
 }
 
 func toMismatches(s *Scenario, fails map[string]int, trace []byte) []core.Mismatch {
@@ -907,7 +1004,11 @@ func (Driver) Replay(c *core.Ctx, raw json.RawMessage) []core.Mismatch {
 }
 
 func genCfg(gen string, emitAt, nrand, strlen int, mc bool) string {
-	s := fmt.Sprintf("SPECIFICATION Spec\nCONSTANTS Gen = \"%s\"\n EmitAt = %d\n NRand = %d\n StrLen = %d\nCHECK_DEADLOCK FALSE\n", gen, emitAt, nrand, strlen)
+	return genCfgClasses(gen, emitAt, nrand, strlen, mc, noClasses)
+}
+
+func genCfgClasses(gen string, emitAt, nrand, strlen int, mc bool, classes string) string {
+	s := fmt.Sprintf("SPECIFICATION Spec\nCONSTANTS Gen = \"%s\"\n EmitAt = %d\n NRand = %d\n StrLen = %d\n%sCHECK_DEADLOCK FALSE\n", gen, emitAt, nrand, strlen, classes)
 	if mc {
 		s += "INVARIANTS NotdefAtZero Injective Dense Functional CodesPointBack\nPROPERTIES Stable\n"
 	} else {
@@ -975,7 +1076,7 @@ func nontrivialDoc(s *Scenario) bool {
 }
 
 func (d Driver) Run(c *core.Ctx) error {
-	c.Rule = "scenarios from spec/FontEmbed.tla: (a) every Get history of the subsetter of length 6 (quick) / 7 (thorough) over 4 glyph ids with the model's codes, replayed on canvas.FontSubsetter; (b) text documents = 1-2 texts over an 18-character alphabet (kerning pair AV, ligature/alternates fi, repeated glyphs, six equal digit widths, composite glyph, U+00FF/U+0100 neighbours, one non-BMP character of the font) x {DejaVuSerif.ttf, EBGaramond12-Regular.otf} x subset on/off x writing mode {horizontal, vertical upright, vertical rotated} x {fresh font object, font object already used by an earlier subsetting document}; each document is laid out, rendered by the real pdf writer, decoded by the independent reader and validated glyph by glyph by Trace_FontEmbed.tla, together with FontFace.ToPath/TextWidth observations; non-trivial document = some text has at least two different characters; non-trivial history = at least one repeated and one new glyph id; distinct by scenario"
+	c.Rule = "scenarios from spec/FontEmbed.tla: (a) every Get history of the subsetter of length 6 (quick) / 7 (thorough) over 4 glyph ids with the model's codes, replayed on canvas.FontSubsetter; (b) text documents = 1-2 texts over an 18-character alphabet (kerning pair AV, ligature/alternates fi, repeated glyphs, six equal digit widths, composite glyph, U+00FF/U+0100 neighbours, one non-BMP character of the font) x {DejaVuSerif.ttf, EBGaramond12-Regular.otf, Dynalight-Regular.otf} x subset on/off x writing mode {horizontal, vertical upright, vertical rotated} x {fresh font object, font object already used by an earlier subsetting document} x face variant {normal, subscript, superscript}; plus the W-array family: per font the driver measures a class of equal-advance characters and the characters with the .notdef (= DW) advance, the spec builds runs of 4..7 equal-advance characters before/after/between DW-advance characters (and runs of DW-advance characters); each document is laid out, rendered by the real pdf writer, decoded by the independent reader and validated glyph by glyph by Trace_FontEmbed.tla (incl. PDF pen advance x Tf size = span width), together with FontFace.ToPath/TextWidth observations measured in the face's scale Size/unitsPerEm; non-trivial document = some text has at least two different characters; non-trivial history = at least one repeated and one new glyph id; distinct by scenario"
 	c.Assumptions = []string{
 		"github.com/tdewolff/font (a dependency of the code under test) is trusted for decoding font programs: glyph outlines and advances of the source font and of the embedded program are compared through it",
 		"the reference for 'laid out' is what Text.WalkSpans reports (glyph ids, advances, clusters); shaping itself is C16's subject",
@@ -1133,7 +1234,22 @@ func (d Driver) Run(c *core.Ctx) error {
 	}
 	goRun(tlc.Opts{Module: "FontEmbed", Workers: 4, Config: genCfg("short", 0, 0, 0, false)})
 	goRun(tlc.Opts{Module: "FontEmbed", Workers: 4, Config: genCfg("modes", 0, 0, 0, false)})
-	goRun(tlc.Opts{Module: "FontEmbed", Workers: 4, Config: genCfg("random", 0, c.Pick(100, 1500), c.Pick(10, 12), false), Seed: c.Seed})
+	// W array runs: per font a class of equal-advance characters and the characters with the .notdef (= DW) advance
+	{
+		classes := ""
+		measured := map[string]any{}
+		for f := 1; f <= 3; f++ {
+			eq, dw, err := advanceClasses(f)
+			if err != nil {
+				c.Broken("advance classes: " + err.Error())
+			}
+			classes += fmt.Sprintf(" Eq%d = %s\n Dw%d = %s\n", f, tlaSet(eq), f, tlaSet(dw))
+			measured[fmt.Sprint(f)] = map[string]string{"equal_advance": cpString(eq), "notdef_advance": cpString(dw)}
+		}
+		c.SetExtra("advance_classes", measured)
+		goRun(tlc.Opts{Module: "FontEmbed", Workers: 4, Config: genCfgClasses("wruns", 0, 0, 0, false, classes)})
+	}
+	goRun(tlc.Opts{Module: "FontEmbed", Workers: 4, Config: genCfg("random", 0, c.Pick(60, 1000), c.Pick(10, 12), false), Seed: c.Seed})
 	if c.Thorough() {
 		goRun(tlc.Opts{Module: "FontEmbed", Workers: 4, Config: genCfg("random", 0, 1000, 6, false), Seed: c.Seed + 500})
 	}
